@@ -13,6 +13,10 @@ def catalogue(rep, tier, n_random):
     lib.tlc_expect_ok(rc, "Abi callbacks")
     rep.add_tlc("Abi/cb", rc)
     cases = cases + rc.printed["CASE"]
+    rt = lib.tlc("abi", "MC_Abi", "abi_trait.cfg", workers=2, coverage=False)
+    lib.tlc_expect_ok(rt, "Abi trait objects")
+    rep.add_tlc("Abi/trait", rt)
+    cases = cases + rt.printed["CASE"]
     rs = lib.tlc("abi", "MC_Abi", "abi_random.cfg", workers=1, coverage=False, simulate=100, depth=8)
     lib.tlc_expect_ok(rs, "Abi random")
     rep.add_tlc("Abi/random", rs)
@@ -85,6 +89,23 @@ def static_checks(e, sym, proto):
         r = c_scalar(cs["ret"]) or (p["r"]["n"] if p["r"]["k"] == "struct" else "?")
         out.append("{ %s t_; memset(&t_, 0, sizeof t_); %s (*fp_)(%s) = t_.run_callback; void (*dp_)(const void*) = t_.destructor; "
                    "const void* d_ = t_.data; (void)fp_; (void)dp_; (void)d_; }" % (ptys[off + i], r, ", ".join(names)))
+    # trait objects: every vtable entry must have exactly the native signature the spec computes; destructor/SIZE/ALIGNMENT lead
+    trs = e.get("traits") or {}
+    if isinstance(trs, list):
+        trs = {str(i + 1): c for i, c in enumerate(trs)}
+    for idx, mss in trs.items():
+        i = int(idx) - 1
+        p = e["sig"]["params"][i]
+        if isinstance(mss, dict):
+            mss = [mss[k] for k in sorted(mss, key=int)]
+        chk = ["%s t_; memset(&t_, 0, sizeof t_); void (*dp_)(const void*) = t_.vtable.destructor; size_t* sz_ = &t_.vtable.SIZE; "
+               "size_t* al_ = &t_.vtable.ALIGNMENT; (void)dp_; (void)sz_; (void)al_;" % ptys[off + i],
+               "_Static_assert(offsetof(%s, vtable) == sizeof(void*), \"%s: the vtable follows the data pointer\");" % (ptys[off + i], sym)]
+        for q, (cs, m) in enumerate(zip(mss, p["ms"])):
+            names = ["void*"] + [c_scalar(x) or (a["n"] if a["k"] == "struct" else "?") for x, a in zip(cs["params"][1:], m["ps"])]
+            r = c_scalar(cs["ret"]) or (m["r"]["n"] if m["r"]["k"] == "struct" else "?")
+            chk.append("%s (*f%d_)(%s) = t_.vtable.run_t%d_callback; (void)f%d_;" % (r, q, ", ".join(names), q, q))
+        out.append("{ " + " ".join(chk) + " }")
     return " ".join(out)
 
 
@@ -120,7 +141,10 @@ def build_and_run(rep, tag, defs, entries, wd, cc_flags=("-std=c11",), lang="c")
         bodies[e["n"]] = g.rust_body(e["n"], e["sig"], e["args"], e["retv"], e["write"]["chunks"] if e["write"] else None,
                                      ret_ty=abisig.rust_ty(e["sig"]["ret"], "'a" if abisig.mentions_borrow(e["sig"]["ret"]) else None))
     src, syms = abisig.module(defs, [(e["n"], e["sig"]) for e in entries], bodies=bodies,
-                              host_data=(callgen.HOST_TEXT, callgen.HOST_BYTES, callgen.HOST_WORDS, callgen.HOST_WIDE))
+                              host_data=(callgen.HOST_TEXT, callgen.HOST_BYTES, callgen.HOST_WORDS, callgen.HOST_WIDE),
+                              # the catalogue's enum carries a representation hint of its own (one that does not conflict with C): the
+                              # macro has to force #[repr(C)] on top of it all the same, or the enum shrinks to one byte
+                              type_attr=lambda n: "    #[repr(align(1))]\n" if n == "En" else "")
     lib_rs = "#![allow(unused, non_snake_case, clippy::all)]\n" + callgen.RUST_SUPPORT + layout_rust(defs) + src
     b = lib.build_bridge("c01_" + tag, lib_rs)
     if not b["ok"]:
@@ -188,7 +212,7 @@ def make_entries(defs, cases, vectors, seed):
             if sig["write"]:
                 chunks = g.rng.choice([[], ["a"], ["héllo", "", " €"], ["0123456789" * 3, "x"]])
                 write = {"chunks": chunks, "cap": g.rng.choice([0, 0, 1, 4, 64])}
-            entries.append({"n": n, "sig": sig, "shape": c["shape"], "lay": c["lay"], "cbs": c.get("cbs"), "args": args, "retv": retv, "write": write})
+            entries.append({"n": n, "sig": sig, "shape": c["shape"], "lay": c["lay"], "cbs": c.get("cbs"), "traits": c.get("traits"), "args": args, "retv": retv, "write": write})
             n += 1
     return g, entries
 
@@ -244,7 +268,7 @@ def check_callbacks(rep, g, e, key, evs, cbevs):
     RustReturn), with the tokens Rust sent == the tokens the foreign callback received == the script, the answer the
     callback gave == what Rust got back == the script; every callback is destroyed exactly once before the caller resumes"""
     sig = e["sig"]
-    cbi = [i for i, p in enumerate(sig["params"]) if p["k"] == "cb"]
+    cbi = [i for i, p in enumerate(sig["params"]) if p["k"] in ("cb", "trait")]
     if not cbi:
         if cbevs:
             rep.violation(dict(key, what="callback events for a call without callbacks"), {"sig": sig, "events": cbevs})
@@ -255,8 +279,9 @@ def check_callbacks(rep, g, e, key, evs, cbevs):
         cf = "f%d.cb%d" % (e["n"], i)
         p = sig["params"][i]
         for call in e["args"]["params"][i]["calls"]:
-            at = ";".join(g.tok(a, x) for a, x in zip(p["ps"], call["args"]))
-            rt = "()" if p["r"]["k"] == "unit" else g.tok(p["r"], call["ret"])
+            m = p["ms"][call["m"]] if p["k"] == "trait" else p
+            at = ("t%d|" % call["m"] if p["k"] == "trait" else "") + ";".join(g.tok(a, x) for a, x in zip(m["ps"], call["args"]))
+            rt = "()" if m["r"]["k"] == "unit" else g.tok(m["r"], call["ret"])
             want += [("CbInvoke", cf, at), ("CbEnter", cf, at), ("CbReturn", cf, rt), ("CbResult", cf, rt)]
     got = [(x["ev"], x["f"], x["v"]) for x in cbevs if x["ev"] != "CbDrop"]
     drops = [x for x in cbevs if x["ev"] == "CbDrop"]
@@ -330,7 +355,11 @@ def run(rep, tier):
         if i == 0:
             # binding self-test: corrupt one argument token -> rejected
             evs = lib.read_ndjson(tr)
-            k = next(j for j, e in enumerate(evs) if e["ev"] == "RustEnter" and "u16:" in e["v"])
+            k = next((j for j, e in enumerate(evs) if e["ev"] == "RustEnter" and "u16:" in e["v"]), None)
+            if k is None:
+                if rep.violations:
+                    continue       # the driver died before the first such call: reported above
+                raise lib.ToolError("binding self-test: no call with a u16 argument in the first batch")
             evs[k]["v"] = evs[k]["v"].replace("u16:", "u16:f", 1)
             bad = os.path.join(wd, "trace_corrupt.ndjson")
             lib.write_ndjson(bad, evs[:k + 3])
